@@ -2535,6 +2535,11 @@ def run_c14(ctx) -> Corr:
                       f"sessions on this tree: {sorted(left) or 'none'}")
 
     batch = Batch()
+    # the same loads in a process with a past: several Persistence / Gateway objects on one path, loads overlapping saves,
+    # repeated under several event loops of this process (persist_loops.py)
+    from . import persist_loops
+
+    loop_pending = persist_loops.loop_checks(ctx, corr, batch, base_texts[0])
     handles = []
     byte_handles = []
     for (label, data, cur), (out, before) in zip(files, results):
@@ -2640,6 +2645,7 @@ def run_c14(ctx) -> Corr:
         return corr
     check_boolean_tables(corr)
     batch.run()
+    persist_loops.loop_compare(corr, batch, loop_pending)
     for c, (h, state) in zip(dir_cases, dir_handles):
         if h is None:
             continue
